@@ -3,7 +3,6 @@
 package main
 
 import (
-	"os"
 	"context"
 	"crypto/tls"
 	"encoding/base64"
@@ -13,6 +12,7 @@ import (
 	"math/rand"
 	"net"
 	"net/http"
+	"os"
 	"strings"
 	"sync"
 	"sync/atomic"
